@@ -5,6 +5,7 @@ from vlib.core import Case
 ID = "C18"
 LEAN_TARGETS = ["ZmqVerif.Props.C18"]
 IMPL_ENV = netgen.net_env()
+ESCALATE_ROUNDS = 0  # extra seeded rounds of the random families when /repo differs from the validated baseline
 RULE = (
     "real multi-thread tokio runtime, real TCP v4/v6 + IPC listeners, raw ZMTP clients. Seeded operation sequences of "
     "length <= 12 over {bind tcp://127.0.0.1:0, tcp://[::1]:0, tcp://localhost:0, ipc path; bind of an endpoint that is "
